@@ -112,21 +112,58 @@ func checkC08(w *World, r *Report) {
 				}
 				return ""
 			}
+			// the piece joined with what follows it, under each kind of closing quote
+			ac := w.SSAFunc(w.Method("parse", "Tree", "argumentConcatenate"))
+			seen := map[bool]bool{}
+			bad := false
 			for _, b := range af.Blocks {
 				for _, in := range b.Instrs {
-					switch x := in.(type) {
-					case *ssa.Call:
-						if x.Call.StaticCallee() != nil && x.Call.StaticCallee().Object() == types.Object(tw) {
-							okD = pcCompare(sym.PathCond(af.Blocks[0], b, nil), classify, func(env map[string]bool) bool { return env["string"] && env["dq"] }) == ""
+					x, isAdd := in.(*ssa.BinOp)
+					if !isAdd || x.Op != token.ADD {
+						continue
+					}
+					if c, isC := x.Y.(*ssa.Call); !isC || c.Call.StaticCallee() != ac || ac == nil {
+						continue
+					}
+					cond := sym.PathCond(af.Blocks[0], b, nil)
+					for _, dq := range []bool{false, true} {
+						model := func(a *pcAtom) (bool, bool) {
+							switch classify(a) {
+							case "string":
+								return true, true
+							case "dq":
+								return dq, true
+							}
+							return false, false
 						}
-					case *ssa.BinOp:
-						// the raw token text concatenated with what follows
-						if x.Op == token.ADD && isVal(x.X) {
-							okS = pcCompare(sym.PathCond(af.Blocks[0], b, nil), classify, func(env map[string]bool) bool { return env["string"] && !env["dq"] }) == ""
+						if reached, decided := pcEvalFree(cond, model); decided && !reached {
+							continue
 						}
+						piece, ok := sym.ValueUnder(af, x.X, model, 0)
+						if !ok {
+							bad = true
+							continue
+						}
+						if !dq {
+							if !isVal(piece) {
+								bad = true
+							}
+							seen[false] = true
+							continue
+						}
+						c, isC := piece.(*ssa.Call)
+						if !isC || c.Call.StaticCallee() == nil || c.Call.StaticCallee().Object() != types.Object(tw) || len(c.Call.Args) != 2 {
+							bad = true
+							continue
+						}
+						if arg, ok := sym.ValueUnder(af, c.Call.Args[1], model, 0); !ok || !isVal(arg) {
+							bad = true
+						}
+						seen[true] = true
 					}
 				}
 			}
+			okD, okS = seen[true] && !bad, seen[false] && !bad
 		}
 		r.Check(okD, "R08.3", "double-quoted piece", fd.Pos(), "trimWhitespace(piece) iff closing quote is \"", "double-quoted text is not passed through escape substitution / indentation stripping")
 		r.Check(okS, "R08.3", "single-quoted piece", fd.Pos(), "verbatim", "single-quoted text is not taken verbatim")
@@ -202,20 +239,25 @@ func checkC08(w *World, r *Report) {
 		ac := w.Method("parse", "Tree", "argumentConcatenate")
 		fd, _ := w.FuncDecl(aq)
 		nOK, nBad := 0, 0
-		ast.Inspect(fd.Body, func(n ast.Node) bool {
-			be, ok := n.(*ast.BinaryExpr)
-			if !ok || be.Op != token.ADD {
-				return true
+		if af, cf := w.SSAFunc(aq), w.SSAFunc(ac); af != nil && cf != nil {
+			isRest := func(v ssa.Value) bool {
+				c, ok := v.(*ssa.Call)
+				return ok && c.Call.StaticCallee() == cf
 			}
-			if ce, ok := ast.Unparen(be.Y).(*ast.CallExpr); ok && calleeOf(p, ce) == ac {
-				nOK++
+			for _, b := range af.Blocks {
+				for _, in := range b.Instrs {
+					if x, ok := in.(*ssa.BinOp); ok && x.Op == token.ADD {
+						if isRest(x.Y) && !isRest(x.X) {
+							nOK++
+						}
+						if isRest(x.X) {
+							nBad++
+						}
+					}
+				}
 			}
-			if ce, ok := ast.Unparen(be.X).(*ast.CallExpr); ok && calleeOf(p, ce) == ac {
-				nBad++
-			}
-			return true
-		})
-		r.Check(nOK == 2 && nBad == 0, "R08.4", "argumentQuoted joins piece + rest", fd.Pos(), "piece + argumentConcatenate()", "pieces joined by '+' are concatenated in the wrong order or not at all")
+		}
+		r.Check(nOK >= 1 && nBad == 0, "R08.4", "argumentQuoted joins piece + rest", fd.Pos(), "piece + argumentConcatenate()", "pieces joined by '+' are concatenated in the wrong order or not at all")
 		cfd, _ := w.FuncDecl(ac)
 		okPlus := false
 		ast.Inspect(cfd.Body, func(n ast.Node) bool {
@@ -351,6 +393,120 @@ func checkC08(w *World, r *Report) {
 			callers = bad
 		}
 		r.Check(len(callers) > 0 && len(bad) == 0, "R08.13", "readers of raw tokens", token.NoPos, strings.Join(callers, ","), "raw tokens (including separators) are read by {"+strings.Join(callers, ",")+"}: a hand-written skip of `one separator` fails when a comment between two pieces has blanks on both sides")
+	})
+
+	r.Rule("R08.15", "indentation stripping measures the column of the opening quote from the lexer's last-token position: when it is applied, the last token taken from the lexer is the piece's own closing quote — no further token is read in between", 1)
+	r.guard("R08.15", func() {
+		tw := w.SSAFunc(w.Func("parse", "trimWhitespace"))
+		exp := w.SSAFunc(w.Method("parse", "Tree", "expect"))
+		quote, okQ := pkgConstInt(w, "parse", "itemQuote")
+		if tw == nil || exp == nil || !okQ {
+			panic(undecided{"parse.trimWhitespace / expect / itemQuote"})
+		}
+		isLastPos := func(a ssa.Value) bool {
+			fa, ok := a.(*ssa.FieldAddr)
+			if !ok {
+				return false
+			}
+			pt, _ := fa.X.Type().Underlying().(*types.Pointer)
+			if pt == nil {
+				return false
+			}
+			st, _ := pt.Elem().Underlying().(*types.Struct)
+			return st != nil && st.Field(fa.Field).Name() == nm(w.Field("parse", "lexer", "lastPos"))
+		}
+		touches := func(f *ssa.Function, write bool) bool {
+			for _, g := range bodiesDeep(f, 6) {
+				for _, b := range g.Blocks {
+					for _, in := range b.Instrs {
+						switch x := in.(type) {
+						case *ssa.Store:
+							if write && isLastPos(x.Addr) {
+								return true
+							}
+						case *ssa.UnOp:
+							if !write && x.Op == token.MUL && isLastPos(x.X) {
+								return true
+							}
+						}
+					}
+				}
+			}
+			return false
+		}
+		r.Check(touches(tw, false), "R08.15", "trimWhitespace reads the last-token position", w.Func("parse", "trimWhitespace").Pos(), "reads lexer.lastPos", "")
+		memo := map[*ssa.Function]bool{}
+		advances := func(c *ssa.Call) bool {
+			g := c.Call.StaticCallee()
+			if g == nil {
+				for _, fv := range funcValues(c.Call.Value, 0) {
+					if touches(fv, true) {
+						return true
+					}
+				}
+				return false
+			}
+			if v, ok := memo[g]; ok {
+				return v
+			}
+			memo[g] = touches(g, true)
+			return memo[g]
+		}
+		sites := 0
+		for _, fd := range funcDecls(p) {
+			if isTestFile(w, fd.Pos()) {
+				continue
+			}
+			obj, _ := p.TypesInfo.Defs[fd.Name].(*types.Func)
+			f := w.SSAFunc(obj)
+			if f == nil {
+				continue
+			}
+			for _, fn := range append([]*ssa.Function{f}, f.AnonFuncs...) {
+				for _, b := range fn.Blocks {
+					for i, in := range b.Instrs {
+						c, ok := in.(*ssa.Call)
+						if !ok || c.Call.StaticCallee() != tw {
+							continue
+						}
+						sites++
+						// backwards from the call: the nearest token taken is expect(itemQuote)
+						okAll := true
+						seen := map[*ssa.BasicBlock]bool{}
+						var back func(bb *ssa.BasicBlock, from int)
+						back = func(bb *ssa.BasicBlock, from int) {
+							for j := from; j >= 0; j-- {
+								pc, isCall := bb.Instrs[j].(*ssa.Call)
+								if !isCall || !advances(pc) {
+									continue
+								}
+								if pc.Call.StaticCallee() == exp && len(pc.Call.Args) >= 2 {
+									if k, isK := pc.Call.Args[1].(*ssa.Const); isK && k.Value != nil {
+										if n, isInt := intConst(k.Value); isInt && n == quote {
+											return
+										}
+									}
+								}
+								okAll = false
+								return
+							}
+							if len(bb.Preds) == 0 {
+								okAll = false
+							}
+							for _, pb := range bb.Preds {
+								if !seen[pb] {
+									seen[pb] = true
+									back(pb, len(pb.Instrs)-1)
+								}
+							}
+						}
+						back(b, i-1)
+						r.Check(okAll, "R08.15", "trimWhitespace in "+funcDeclName(fd), c.Pos(), "nearest preceding token read is expect(itemQuote)", "a further token is read (or none is) between the closing quote and the indentation stripping of the piece, so the column of the opening quote is measured from the wrong place")
+					}
+				}
+			}
+		}
+		r.Check(sites >= 1, "R08.15", "call sites of trimWhitespace", w.Func("parse", "trimWhitespace").Pos(), ">= 1", "no call site found")
 	})
 
 	r.Rule("R08.14", "'+' outside quotes is always the concatenation token: in lexStmt the Plus item is emitted exactly when the rune read is '+', whatever follows it (a comment may follow the '+' directly)", 1)
